@@ -16,3 +16,9 @@ pub use self::verifier::batch_verify;
 pub use self::verifier::Verifier;
 
 pub use crate::errors::R1CSError;
+
+// Nameable randomized-phase wrappers for the external verification harness.
+#[cfg(feature = "verif-hooks")]
+pub use self::prover::RandomizingProver;
+#[cfg(feature = "verif-hooks")]
+pub use self::verifier::RandomizingVerifier;
